@@ -123,10 +123,13 @@ def r1_ref_close(c, facts):
     # no extra filter between iteration and insert: insert must be reachable for every entry on the None edge
     ksl = MF.slice_back(ac, it['args'][1]['l'], aidx) if 'l' in it['args'][1] else {'calls': []}
     kn = {P.strip(n) for n, _, _ in ksl['calls']}
-    if any(n.endswith('Ident::untagged') for n in kn):
-        c.ok(R, {'component key': 'name.untagged() (same key function as the $ref text)'})
+    NEUTRAL = ('fmt::', 'hint::must_use', 'IndexMap::iter', 'IntoIterator::into_iter', 'Iterator::next', 'Clone::clone', 'ToString::to_string', 'ToOwned::to_owned', 'Deref::deref', 'AsRef::as_ref', 'Borrow::borrow', 'From::from', 'Into::into')
+    tr_emit = sorted(n for n in names if not any(x in n for x in NEUTRAL))
+    tr_reg = sorted(n for n in kn if not any(x in n for x in NEUTRAL))
+    if any(n.endswith('Ident::untagged') for n in kn) and tr_emit == tr_reg:
+        c.ok(R, {'component key': 'name.untagged() (same key function as the $ref text)', 'functions applied on both sides': tr_reg})
     else:
-        c.bad(R, 'component-key-function-differs', 'components are registered under a key that is not name.untagged(), unlike the $ref text')
+        c.bad(R, 'component-key-function-differs', 'components are registered under a key computed by %s but the $ref text is computed by %s: a $ref whose name is changed by one side only dangles' % (tr_reg, tr_emit))
     if any(n.endswith('::iter') or n.endswith('into_iter') for n in kn) or P.call_blocks(ac, 'IndexMap::iter'):
         c.ok(R, {'all_components': 'iterates spec.refs'})
     # same name flows to maybe_inline and to the key
@@ -331,6 +334,30 @@ def r3_path_param(c, facts):
             c.ok(R, {q.split('::')[-1]: 'walks UriSegment::Variable of uri.path'})
         else:
             c.bad(R, '%s:does-not-walk-path-variables' % q.split('::')[-1], '%s no longer walks the Variable segments of uri.path' % q)
+    # every path parameter built reaches the caller: the returned list is the list pushed to, not a filtered copy
+    up = c.anchor(R, 'oal_openapi::Builder::uri_params')
+    uidx = MF.defs_index(up)
+    LOSSY = {'dedup', 'dedup_by', 'dedup_by_key', 'retain', 'retain_mut', 'truncate', 'pop', 'remove', 'swap_remove', 'drain', 'split_off', 'clear', 'take', 'skip', 'filter', 'take_while', 'skip_while', 'step_by', 'into_values', 'into_keys', 'values', 'insert', 'last', 'first', 'nth'}
+    lossy, foreign = set(), set()
+    for f2 in [up] + facts.closures_of(up):
+        for b2, t2 in f2.calls():
+            cal = callee_of(t2)
+            if not cal:
+                continue
+            nm2 = P.strip(cal['def']).split('::')[-1]
+            if nm2 in LOSSY:
+                lossy.add(nm2)
+    ret = MF.slice_back(up, 0, uidx, through_calls=False)
+    for n2, t2, _ in ret['calls']:
+        cal = callee_of(t2)
+        h = facts.fns.get(cal.get('resolved_id') or cal.get('id')) if cal else None
+        if h is not None and h.crate.startswith('oal_') and not h.qname.split('::')[-1].startswith('prop_'):
+            foreign.add(h.qname)
+    if lossy or foreign:
+        c.bad(R, 'uri_params:list-filtered:%s' % ','.join(sorted(lossy | {q.split('::')[-1] for q in foreign})),
+              'uri_params passes the parameters it built through %s before returning them: a path variable of the key can be left without its required path parameter' % sorted(lossy | foreign))
+    else:
+        c.ok(R, {'uri_params': 'returns the list it pushed to (no selecting or de-duplicating step)'})
     # Uri::pattern delegates to pattern_with with the {name} formatter
     pt = c.anchor(R, 'oal_compiler::spec::Uri::pattern')
     if P.call_blocks(pt, 'Uri::pattern_with'):
